@@ -4,14 +4,17 @@ package main
 import (
 	"fmt"
 	"reflect"
+	"regexp"
 	"sort"
 	"strings"
+	"time"
 
 	sqle "github.com/dolthub/go-mysql-server"
 	"github.com/dolthub/go-mysql-server/memory"
 	"github.com/dolthub/go-mysql-server/sql"
 	"github.com/dolthub/go-mysql-server/sql/analyzer"
 	"github.com/dolthub/go-mysql-server/sql/analyzer/analyzererrors"
+	"github.com/dolthub/go-mysql-server/sql/mysql_db"
 	"github.com/dolthub/go-mysql-server/sql/plan"
 	"github.com/dolthub/go-mysql-server/sql/types"
 	"github.com/dolthub/go-mysql-server/verifharness/hx"
@@ -26,6 +29,7 @@ func newEng() *eng.Eng {
 	rod := memory.NewReadOnlyDatabase("rod")
 	pro := memory.NewDBProvider(d, rod)
 	e := &eng.Eng{E: sqle.NewDefault(pro), Pro: pro, DBs: []*memory.Database{d}}
+	e.E.Analyzer.Catalog.MySQLDb.SetPersister(&mysql_db.NoopPersister{})
 	e.E.Analyzer.Catalog.MySQLDb.AddRootAccount()
 	ctx := e.Ctx()
 	e.MustExec(ctx,
@@ -82,6 +86,16 @@ func digest(e *eng.Eng) string {
 		}
 		sort.Strings(rows)
 		parts = append(parts, q+":"+x.Class()+":"+strings.Join(rows, ";"))
+	}
+	return strings.Join(parts, "\n")
+}
+
+// rodDigest: what exists in the read-only database `rod` (and whether it still exists).
+func rodDigest(e *eng.Eng) string {
+	ctx := e.Ctx()
+	var parts []string
+	for _, q := range []string{"SHOW DATABASES", "SHOW FULL TABLES FROM rod", "SHOW EVENTS FROM rod", "SELECT routine_name FROM information_schema.routines WHERE routine_schema = 'rod'"} {
+		parts = append(parts, resultText(e.Query(ctx, q)))
 	}
 	return strings.Join(parts, "\n")
 }
@@ -388,17 +402,15 @@ var catalogue = []stmt{
 	{"SHOW EVENTS", "R", "other"},
 	{"SHOW VARIABLES LIKE 'autocommit'", "R", "other"},
 	{"SHOW STATUS LIKE 'Threads%'", "R", "other"},
-	{"SHOW TABLE STATUS", "R", "other"},
 	{"SHOW PROCESSLIST", "X", "other"},
 	{"SHOW WARNINGS", "R", "other"},
 	{"SHOW CHARSET", "R", "other"},
 	{"SHOW COLLATION LIKE 'utf8mb4_0900_bin'", "R", "other"},
 	{"SHOW GRANTS", "R", "other"},
 	{"SHOW PRIVILEGES", "R", "other"},
-	{"SHOW PROCEDURE STATUS", "X", "other"},
 	{"DESCRIBE t", "R", "other"},
 	{"EXPLAIN SELECT * FROM t", "R", "other"},
-	{"EXPLAIN INSERT INTO t VALUES (9,9)", "R", "other"},
+	{"EXPLAIN INSERT INTO t VALUES (9,9)", "R", "dml"},
 	{"USE d", "R", "other"},
 	{"SET @x = 1", "R", "other"},
 	{"SET SESSION sql_mode = ''", "R", "other"},
@@ -512,7 +524,12 @@ var rodCatalogue = []stmt{
 	{"ALTER TABLE rod.rt RENAME COLUMN b TO c", "W", "ddl"},
 	{"CREATE INDEX ib ON rod.rt (b)", "W", "ddl"},
 	{"ALTER TABLE rod.rt ADD CONSTRAINT ck CHECK (b > 0)", "W", "ddl"},
-	{"RENAME TABLE rod.rt TO rod.w", "W", "ddl"},
+	{"RENAME TABLE rod.rt TO rod.w", "W", "ddlx"},
+	{"CREATE VIEW rod.v AS SELECT 1", "W", "ddlx"},
+	{"CREATE PROCEDURE rod.p() SELECT 1", "W", "ddlx"},
+	{"CREATE EVENT rod.ev ON SCHEDULE EVERY 1 DAY DO SELECT 1", "W", "ddlx"},
+	{"DROP DATABASE rod", "W", "ddlx"},
+	{"ALTER TABLE rod.rt AUTO_INCREMENT = 10", "W", "ddlx"},
 	{"CREATE TRIGGER rod.trx BEFORE INSERT ON rod.rt FOR EACH ROW SET NEW.b = 1", "W", "ddl"},
 	{"LOCK TABLES rod.rt WRITE", "X", "other"},
 }
@@ -527,11 +544,13 @@ func run(a hx.RunArgs) error {
 		"sql: a catalogue of statements of every kind, each on a fresh engine, under engine read-only and server-locked (outcome, state digest of data+schema+accounts before/after, result vs. the read-write twin), " +
 		"START TRANSACTION READ ONLY, and against a read-only database. A case is non-trivial when the tree contains a writing kind or a resolved table in a read-only database / the statement is labelled W"
 	r := hx.NewRand(a.Seed)
+	t0 := time.Now()
 
 	ix, err := buildIndex(a.Repo)
 	if err != nil {
 		return err
 	}
+	out.Extra["seconds_index"] = int(time.Since(t0).Seconds())
 	nodes, _ := kindTable(ix)
 	classes := map[string]cls{}
 	for _, e := range nodes {
@@ -585,13 +604,19 @@ func run(a hx.RunArgs) error {
 			out.Stat("build-error:" + err.Error())
 			return
 		}
+		serChildrenPanic, serTypedNil = false, false
 		payload := ser("", n, false, 0)
 		nt := nontrivialTree(t)
 		countKinds(t, kindsSeen)
 		ro := obsRO(n)
 		out.Case("(ro "+payload+")", ro+" "+obsGate(re.e.E, n), nt)
-		out.Case("(tx "+payload+")", re.obsTx(n), nt)
-		out.Case("(db "+payload+")", re.obsDb(n), nt)
+		if serChildrenPanic || serTypedNil {
+			// the traversals of the rules are not modelled on such trees (zero-value artefacts)
+			out.Stat("tree:ro-only")
+		} else {
+			out.Case("(tx "+payload+")", re.obsTx(n), nt)
+			out.Case("(db "+payload+")", re.obsDb(n), nt)
+		}
 		out.Stat("tree:" + tag)
 		out.Stat("ro:" + ro)
 	}
@@ -728,6 +753,7 @@ func run(a hx.RunArgs) error {
 		}
 	}
 
+	out.Extra["seconds_kind_tables"] = int(time.Since(t0).Seconds())
 	// Stream B: random trees
 	nRand := 2500
 	if a.Thorough {
@@ -757,19 +783,29 @@ func run(a hx.RunArgs) error {
 	out.Extra["kinds_registered"] = len(specs)
 
 	// Stream C: SQL catalogue
+	tTrees := time.Since(t0)
 	runSQL(out, a)
+	out.Extra["seconds_trees"] = int(tTrees.Seconds())
+	out.Extra["seconds_sql"] = int((time.Since(t0) - tTrees).Seconds())
 	return nil
 }
 
+var tsRe = regexp.MustCompile(`\d{4}-\d\d-\d\d \d\d:\d\d:\d\d(\.\d+)?`)
+
+// resultText: outcome class and rows, with timestamps masked (SHOW TRIGGERS / SHOW CREATE TRIGGER print creation times).
 func resultText(r *eng.Res) string {
-	return r.Class() + "|" + eng.Canon(r, true)
+	var rows []string
+	for _, row := range r.Rows {
+		rows = append(rows, strings.Join(row, "|"))
+	}
+	return r.Class() + "|" + tsRe.ReplaceAllString(strings.Join(rows, "\n"), "TS")
 }
 
 func runSQL(out *hx.Out, a hx.RunArgs) {
+	before := digest(newEng())
 	for _, st := range catalogue {
 		// read-write twin: the statement's normal outcome, whether it changes the state, and its analyzed plan
 		tw := newEng()
-		before := digest(tw)
 		ctx := tw.Ctx()
 		var planNode sql.Node
 		var aerr error
@@ -778,9 +814,8 @@ func runSQL(out *hx.Out, a hx.RunArgs) {
 			continue
 		}
 		payloadTree := ser("", planNode, false, 0)
-		tw2 := newEng()
-		rw := tw2.Query(tw2.Ctx(), st.q)
-		changes := digest(tw2) != before
+		rw := tw.Query(tw.Ctx(), st.q)
+		changes := digest(tw) != before
 		if st.label == "W" && !changes {
 			// the catalogue claims a write, the read-write engine shows none: catalogue bug
 			out.Stat("sql:label-W-without-effect:" + st.q)
@@ -871,6 +906,17 @@ func runSQL(out *hx.Out, a hx.RunArgs) {
 		obs := cl
 		if cl == "ok" {
 			obs = "pass"
+			if st.label == "W" {
+				// analysis let a write through: execute it and look at the read-only database
+				b4 := rodDigest(e)
+				r := e.Query(e.Ctx(), st.q)
+				obs += " exec:" + errClass(r.Err, r.Panic)
+				if rodDigest(e) == b4 {
+					obs += " same"
+				} else {
+					obs += " changed"
+				}
+			}
 		}
 		out.Case(hx.List("sqldb", st.label, st.class, hx.HexS(st.q), hx.HexS(obs)), obs, st.label == "W")
 		out.Stat("sqldb:" + obs)
